@@ -3,6 +3,7 @@
   math.h, over the tables regenerated from fixed_lib/src/*_table.h (Generated/Tables.lean).
 -/
 import FixedMath.Model.Math
+import FixedMath.Model.Mixed
 import FixedMath.Generated.Tables
 
 namespace FixedMath
